@@ -31,6 +31,16 @@ def judge_one(case, obs, res):
         res.inconclusive.append(f"executor failure: {str(obs)[:200]}")
         return None
     outs = {ch: outcome(o) for ch, o in obs["ch"].items()}
+    if str(case["meta"].get("textmut", "")).startswith("ill_formed_utf8"):
+        # bytes that are no text and cannot be held by a JSON tree: only the byte routes are comparable - and only those
+        # with the same decode target: serde's untagged "layout or link" buffers (and decodes) every member, the typed
+        # targets skip members they do not know.  The crate's own entry points belong to the typed group.
+        typed = {ch: k for ch, k in outs.items() if ch in ("typed_slice", "try_from_bytes", "raw_builder")}
+        if len(set(typed.values())) > 1 or obs.get("typed_eq") is False:
+            res.violate(f"channel-dependent-acceptance:{case['type']}:typed-byte-routes",
+                        f"the byte routes to the same decode target disagree on a document with an ill-formed byte sequence in a member "
+                        f"nobody reads: {typed}", case, obs, "one outcome")
+        outs = {ch: k for ch, k in outs.items() if ch not in ("str", "value", "jdeser", "typed_slice", "try_from_bytes", "raw_builder")}
     if str(case["meta"].get("textmut", "")).startswith("duplicate_member"):
         # a JSON tree cannot represent a repeated member (building it keeps the last occurrence), so the tree
         # channels see a different document: only the text channels are comparable here
@@ -92,7 +102,7 @@ def shard(binpath, seed, sh, n):
         if i % 3 == 0:
             # text-level variants around the document: each is judged on its own (one outcome over all channels)
             base = texts["plain"]
-            k = rng.randrange(25)
+            k = rng.randrange(27)
             tx, how = {
                 0: (base + "]", "trailing_bracket"), 1: (base + " x", "trailing_garbage"), 2: (base + base, "two_documents"),
                 3: (base + " \n\t\r\n", "trailing_whitespace"), 4: (base + ",", "trailing_comma"), 5: (base + "\x00", "trailing_nul"),
@@ -103,10 +113,12 @@ def shard(binpath, seed, sh, n):
                 19: two_spellings_of_a_member(base, rng), 20: two_spellings_of_a_member(base, rng),
                 21: long_list(base, d, rng), 22: long_list(base, d, rng),
                 23: dual_shape(base, d, rng, W), 24: dual_shape(base, d, rng, W),
+                25: ill_formed_in_ignored_member(base, d, rng), 26: ill_formed_in_ignored_member(base, d, rng),
                 14: extra_number_member(base, d, rng, False), 15: extra_number_member(base, d, rng, True), 16: extra_number_member(base, d, rng, False),
             }[k]
             groups.append([len(cases)])
-            cases.append({"op": "serde", "type": "wrapper" if how.startswith("layout_and_link") else t, "text": tx,
+            tt = "wrapper" if how.startswith(("layout_and_link", "ill_formed")) and t in ("layout", "link", "wrapper") else t
+            cases.append({"op": "serde", "type": tt, "text": tx,
                           "meta": {"spelling": "text:" + how, "valid": False, "textmut": how}})
     obs = common.run_batch(binpath, cases, keys=False)
     for g in groups:
@@ -131,11 +143,11 @@ def shard(binpath, seed, sh, n):
             cls.append(f"text:{c0['meta']['textmut']}:" + "+".join(sorted(classes)))
         if "ok" in classes and len(classes) == 1:
             cls.append(f"all_channels_agree_ok:{c0['type']}")
-            if '"MATCH"' in c0["text"] or '"CREATE"' in c0["text"] or '"ALLOW"' in c0["text"]:
+            if '"MATCH"' in str(c0["text"]) or '"CREATE"' in str(c0["text"]) or '"ALLOW"' in str(c0["text"]):
                 cls.append("contains_rules:ok")
-            if "buildStartedOn" in c0["text"] or "buildFinishedOn" in c0["text"]:
+            if "buildStartedOn" in str(c0["text"]) or "buildFinishedOn" in str(c0["text"]):
                 cls.append("contains_timestamp:ok")
-        res.note([c0["type"], c0["text"]], True, cls=cls, n=sum(len(obs[ci].get("ch", {})) for ci in g))
+        res.note([c0["type"], str(c0["text"])], True, cls=cls, n=sum(len(obs[ci].get("ch", {})) for ci in g))
     if sh == 0:
         for g in groups[:2]:
             res.sample({"type": cases[g[0]]["type"], "spellings": {cases[ci]["meta"]["spelling"]: cases[ci]["text"][:300] for ci in g},
@@ -154,6 +166,16 @@ def dup_member(base, d, escaped):
         if ord(k[0]) > 0xFFFF:
             name = json.dumps(k)
     return (base[:-1] + "," + name + ":" + json.dumps(d[k], ensure_ascii=False) + "}", "duplicate_member" + ("_escaped" if escaped else ""))
+
+
+def ill_formed_in_ignored_member(base, d, rng):
+    """one more member that no decoder of the type looks at, whose string holds a byte sequence that is not UTF-8 (a Latin-1
+    e-acute, a lone continuation byte): the document is offered as bytes"""
+    if not isinstance(d, dict) or not base.endswith("}"):
+        return (base + " \n", "trailing_whitespace")
+    bad = rng.choice([b"caf\xe9", b"\x80", b"\xc3", b"ok\xff\xfe"])
+    raw = base[:-1].encode() + (b"," if d else b"") + b'"x-note":"' + bad + b'"}'
+    return ({"hex": raw.hex()}, "ill_formed_utf8_in_ignored_member")
 
 
 def dual_shape(base, d, rng, W):
